@@ -10,6 +10,7 @@ import (
 	"os"
 	"strconv"
 	"strings"
+	"time"
 
 	"github.com/alicebob/sqlittle"
 	sdb "github.com/alicebob/sqlittle/db"
@@ -17,6 +18,7 @@ import (
 )
 
 var (
+	lastClock = time.Now()
 	out   = bufio.NewWriterSize(os.Stdout, 1<<20)
 	pager *h.MemPager
 	db    *sdb.Database
@@ -354,6 +356,7 @@ func main() {
 		case line == "":
 		case line[0] == '#':
 			fmt.Fprintln(out, line)
+			out.Flush() // so that a fatal error or a kill leaves the id of the case it happened in
 		case strings.HasPrefix(line, "db "):
 			data, err := os.ReadFile(line[3:])
 			if err != nil {
@@ -409,6 +412,26 @@ func main() {
 				} else {
 					fmt.Fprintf(out, "runlock ok\n")
 				}
+			}
+		case line == "clock":
+			now := time.Now()
+			fmt.Fprintf(out, "clock %d\n", now.Sub(lastClock).Milliseconds())
+			lastClock = now
+		case line == "names":
+			if db != nil {
+				guard("names err ", func() {
+					ts, err := db.Tables()
+					is, err2 := db.Indexes()
+					if err != nil || err2 != nil {
+						fmt.Fprintf(out, "names err\n")
+						return
+					}
+					fmt.Fprintf(out, "names %s | %s\n", strings.Join(ts, ","), strings.Join(is, ","))
+				})
+				guard("info err ", func() {
+					_, err := db.Info()
+					fmt.Fprintf(out, "info %v\n", err == nil)
+				})
 			}
 		case line == "reads":
 			if pager != nil {
